@@ -226,6 +226,9 @@ class Engine:
         if isinstance(v, PyFunc):
             if v.term is not None:
                 return v.term, st
+            if v.fn is None:
+                # value of an unmodelled attribute / call (the path is already tainted): arbitrary
+                return fresh('havoc_value'), st.tainted()
             raise OutOfSubset(f"callable {v.name} used as a value")
         if isinstance(v, PyClassRef):
             return V.Cls(self.T.cid.get(v.name, 0)), st
@@ -293,6 +296,7 @@ class Engine:
             elif n == 'dict': tests.append(V.is_Dict(v))
             elif n == 'tuple': tests.append(V.is_Tuple(v))
             elif n == 'set': tests.append(V.is_Set(v))
+            elif n == 'NoneType': tests.append(v == V.None_)
             elif n == 'bytes': tests.append(z3.And(V.is_Other(v), other_is_bytes(V.oid(v))))
             elif n == 'partial': tests.append(z3.And(V.is_Fun(v), lookup(V.fbound(v), S('__partial__')) != V.Missing))
             elif n in self.T.cid: tests.append(self.is_instance_of(v, n))
@@ -1060,6 +1064,14 @@ class Engine:
                 out.append((s2.copy(env=st.env), v))
         hook = getattr(self.contract, 'filter_facts', None)
         s = st.assume(length(R) >= 0, length(R) <= n)
+        # a filtered list keeps every "all elements satisfy P" fact of its (single) source
+        if len(desc.sources) == 1 and desc.sources[0][0] in ('list',) and isinstance(e.elt, ast.Name) and isinstance(g.target, ast.Name) and e.elt.id == g.target.id:
+            seq = z3.simplify(self.src_seq(desc.sources[0][0], desc.sources[0][1], st))
+            full = [VAL.simp(x) for x in st.conds]
+            for a in collect_apps(full + ground_axioms(full), set(ForallList._made)):
+                if z3.simplify(a.arg(0)).eq(seq):
+                    fl = ForallList._made[a.decl().name()]
+                    s = s.assume(z3.Implies(a, fl.fn(R, *[a.arg(i) for i in range(1, a.num_args())])))
         if hook is not None:
             s = hook(self, s, e, desc, R)
         s, r = self.new_ref(s, 'list', V.List(R))
@@ -1280,6 +1292,9 @@ class Engine:
             return x.id
         if isinstance(x, ast.Attribute):
             return x.attr
+        if isinstance(x, ast.Call) and isinstance(x.func, ast.Name) and x.func.id == 'type' and len(x.args) == 1 \
+                and isinstance(x.args[0], ast.Constant) and x.args[0].value is None:
+            return 'NoneType'
         raise OutOfSubset("isinstance class expression")
 
     def ev_args(self, e, st, out):
@@ -2158,7 +2173,7 @@ def fun_key(k):
 
 
 INLINE = set()
-CONTAINER_ATTRS = {'popitem', 'bit_length', 'append', 'extend', 'get', 'items', 'keys', 'values', 'pop', 'setdefault', 'add', 'update', 'startswith',
+CONTAINER_ATTRS = {'intersection', 'popitem', 'bit_length', 'append', 'extend', 'get', 'items', 'keys', 'values', 'pop', 'setdefault', 'add', 'update', 'startswith',
                    'endswith', 'join', 'format', 'lower', 'upper', 'split', 'strip', 'copy', 'index', 'count', 'insert', 'remove', 'encode', 'decode', 'replace'}
 
 from .builtins import BUILTINS, EXTERNALS, METHODS  # noqa: E402  (models of builtins; needs the classes above)
